@@ -105,6 +105,57 @@ def chain_level(chk, tier, exe):
         chk.report(key, "after %s in history %s the real tokens' pointer graph %s is not the forest TokenChain prescribes" % (ev["op"], json.dumps(h), json.dumps(ev["nodes"])), dict(history=h, script=chain_script(h), nodes=ev["nodes"]))
 
 
+PAIRS_CFG = "CONSTANTS MaxLen = %d\n Thr = %d\n Sim = %s\nINIT %s\nNEXT Next\nINVARIANTS %s\nCHECK_DEADLOCK FALSE\n"
+PAIRS_INV = "CountAgrees StackOK MateSym Admissible WellNested Greedy FoldAgrees"
+
+
+def pairs_level(chk, tier, exe, seed):
+    """TokenPairs: the pairing engine transcribed; (1) TLC checks symmetry, admissibility, non-crossing and the declarative 'nearest usable opener' characterisation on every
+    chain of <= 4 (thorough 5) tokens, with the large-stack shortcut always taken (Thr = 0) and never taken; (2) every chain of <= 3 (thorough 4), simulated longer ones and
+    chains that cross the real threshold of 1000 pending openers are run through the real engine and TokenPairsTrace demands the model's matching."""
+    n = 4 if tier == "quick" else 5
+    for thr in ((0, 1000) if tier == "quick" else (0,)):
+        r = tlc.run("TokenPairs", PAIRS_CFG % (n, thr, "FALSE", "Init", PAIRS_INV), workers=16, timeout=1500, want_printed=False, heap="24g")
+        chk.cov["states"] += r.distinct; chk.cov["transitions"] += r.generated
+        chk.cov["pairs_mc_thr%d" % thr] = dict(maxlen=n, distinct=r.distinct, violated=r.violated)
+        if r.violated:
+            chk.report("pairs-model:" + r.violated, "TokenPairs: the pairing engine as transcribed violates %s :: %s" % (r.violated, r.cex[-1500:]), dict(tlc=r.cex[-6000:]))
+    g = tlc.run("TokenPairs", PAIRS_CFG % (3 if tier == "quick" else 4, 1000, "FALSE", "Init", "Emit"), workers=16, timeout=1500, heap="16g")
+    gs = tlc.run("TokenPairs", PAIRS_CFG % (9, 1000, "TRUE", "Init", "Emit"), workers=4, simulate=(1500 if tier == "quick" else 20000), depth=12, seed=seed, timeout=900)
+    gd = tlc.run("TokenPairs", PAIRS_CFG % (1, 1000, "FALSE", "InitDeep", "EmitDeep"), workers=4, timeout=900)
+    chains = uniq([c["toks"] for c in g.printed + gs.printed + gd.printed])
+    if len(chains) < 5000 or len(gd.printed) < 40: raise FrameworkError("TokenPairs generated %d chains (%d deep)" % (len(chains), len(gd.printed)))
+    def spec(ts): return "".join("%d:%d:%d:%d:%d;" % (t["ty"], t["len"], 1 if t["adj"] else 0, 1 if t["co"] else 0, 1 if t["cc"] else 0) for t in ts)
+    per = 400; segs = []
+    for i in range(0, len(chains), per):
+        segs.append(["seg\tpairs"] + [line("pairs", spec(ts)) for ts in chains[i:i + per]])
+    res = run_harness(exe, segs, timeout=60)
+    trace = []
+    for i, r in enumerate(res):
+        trace.append(dict(e="reset", seg=i))
+        evs = [e for e in r["events"] if e.get("e") == "pairs"]
+        for ts, e in zip(chains[i * per:(i + 1) * per], evs):
+            trace.append(dict(e="pairs", toks=ts, mate=e["mate"], depth=e["depth"], conts=e["conts"], stack=e["stack"], table=e["table"]))
+        if r["status"] != "ok":
+            kd, f = san_signature(r.get("san", ""))
+            chk.report("pairs:%s:%s:%s" % (r["status"], kd, f), "the pairing engine on a model-generated chain ended the process :: %s" % r.get("san", "")[:300].replace("\n", " | "), dict(script=[x[:300] for x in segs[i][-5:]]))
+    # the deep chains are long: validate them apart from the short ones so that the JSON lines stay small for the bulk
+    acc, rej, st, info = tlc.validate_trace("TokenPairsTrace", os.path.join(VERIF, "spec", "TokenPairsTrace.cfg"), trace, independent=True, max_rejects=8, timeout=1200, parallel=12)
+    chk.cov["states"] += st; chk.cov["transitions"] += st
+    chk.add("traces_validated_against_impl", len(chains) - len(rej))
+    chk.cov["pairs_chains"] = len(chains); chk.cov["pairs_deep_chains"] = len(gd.printed)
+    chk.sample(dict(pairs_chain=spec(chains[len(chains) // 3])))
+    seen = set()
+    for seg, idx in rej:
+        ev = seg[idx]; deep = len(ev["toks"]) > 900
+        key = "pairs:%s" % ("deep-stack" if deep else "matching")
+        if key in seen: continue
+        seen.add(key)
+        sp = spec(ev["toks"]) if not deep else ("%d x %s + %s" % (len(ev["toks"]) - 5, spec(ev["toks"][:1]), spec(ev["toks"][-5:])))
+        chk.report(key, "the real pairing engine's result on chain %s (mate %s, depth %s, containers %s) is not the matching TokenPairs prescribes" % (sp, ev["mate"][-8:], ev["depth"][-8:], ev["conts"][-4:]),
+                   dict(chain=spec(ev["toks"]), mate=ev["mate"], depth=ev["depth"], conts=ev["conts"]))
+
+
 def run(tier, seed):
     chk = Check("C15", LEVEL, tier, seed)
     rnd = random.Random(seed)
@@ -119,6 +170,7 @@ def run(tier, seed):
     chk.cov["states"] = max(en.distinct, 1); chk.cov["transitions"] = max(en.generated, 1)
     exe = build.build_harness("asan")
     chain_level(chk, tier, exe)
+    pairs_level(chk, tier, exe, seed)
     corp = docs.corpus()
     table, seqs, seqs3, sim, seqs4 = c02.gen_docs("quick", seed)
     dl = [(n, corp[n]) for n in sorted(corp)] + [("pool:" + k, v.encode()) for k, v in docs.POOL.items()]
